@@ -18,9 +18,13 @@ from .. import wire as W
 
 ID = "C01"
 CLAIM = dict(
-    text="Kernel-checked: msgpack decode(encode v) = v for every well-formed value of any depth and size class (M1), "
-         "varint sign-magnitude and big-endian length lemmas, frame splitting inverse to framing for every frame list, "
-         "envelope/record round-trip at the packed level. Tie: wire constants regenerated from packer.py/stream.py/"
+    text="Kernel-checked: C01_stream_roundtrip - for EVERY admissible history of records and grouped records (any "
+         "number, any interleaving of descriptors incl. colliding identifiers in separate objects, nesting to any depth, "
+         "big integers, both timestamp encodings, text in the image of decode/surrogateescape) written by a fresh "
+         "writer, the reader run over the BYTES returns exactly the records written, in order, each with its own "
+         "descriptor, then ends cleanly; built from msgpack M1 (decode(encode v) = v, any depth and size class), "
+         "the envelope layer R1 (records, nested records, grouped members, varint sign-magnitude), framing and the "
+         "registry invariant; UTF-8/surrogateescape S1/S2. Tie: wire constants regenerated from packer.py/stream.py/"
          "base.py; the executable model writes the *same bytes* as RecordStreamWriter for every generated record "
          "sequence (all serialisable field types, scalar and list, nested and grouped) and reads the implementation's "
          "bytes to the same packed records; real-code oracle compares deep observations before write / after read.",
